@@ -176,7 +176,7 @@ func init() {
 			"distinct (program, schedule) lines with at least two threads.",
 		Gen: func(c *Ctx) {
 			r := c.Rng
-			for n := 0; n < c.N(260, 6000); n++ {
+			for n := 0; n < c.N(900, 12000); n++ {
 				specs := []string{}
 				next := 1
 				ne := 1 + r.Intn(3)
